@@ -2,10 +2,13 @@ import PdshVerif.Base.Hex
 import PdshVerif.Hostlist.Print
 import PdshVerif.Hostlist.PrintSpec
 import PdshVerif.Hostlist.Parse
+import PdshVerif.Hostlist.Probed
 import Driver.Util
 
 /-! line protocol of the `print` engine (property C14; the C side is the `p*` ops of
-    harness/hl_harness.c):   `pdshmodel print model unchanged|fixed`
+    harness/hl_harness.c):   `pdshmodel print model unchanged|fixed [unchanged|fixed]`
+    (first switch: D14, hostlist_deranged_string; second: D2/F14-XLOOP, list_push_hostlist; the parser
+    used by `pback` is the probed variant `Cfg.probed` of Hostlist/Probed.lean)
 
       list NHOSTS NRANGES PRE:LO:HI:WIDTH:SINGLE ...   the current list, as `dump` prints it   -> ok N
       ptext r|d            reference call with a buffer that is large enough   -> RET HEX [= | spec:HEX]
@@ -25,6 +28,7 @@ def FILL : Char := Char.ofNat 0xA5
 
 structure St where
   fixed : Bool
+  xfixed : Bool
   rs : List HRange
 
 def parseRec (s : String) : Option HRange :=
@@ -131,7 +135,7 @@ def step (st : St) (line : String) : St × String :=
     match r with
     | .trunc => (st, "no-reference")
     | .ok _ =>
-      match create t with
+      match create Cfg.probed t with
       | .null e f => (st, s!"null:{errnoClass e}:{fatalClass f}")
       | .ub w => (st, "ub:" ++ (w.replace " " "_"))
       | .diverge => (st, "diverge")
@@ -145,20 +149,27 @@ def step (st : St) (line : String) : St × String :=
     | (b, some s) => (st, Hex.encodeChars s ++ oobField b WCOLL_STR)
     | (b, none) => (st, "no-nul" ++ oobField b WCOLL_STR)
   | ["pxlist"] =>
-    match listPushHostlist ⟨st.rs.toArray, 0⟩ with
+    match listPushHostlist st.xfixed ⟨st.rs.toArray, 0⟩ with
     | (_, some s) => (st, Hex.encodeChars s)
     | (_, none) => (st, "diverge")
   | _ => (st, "bad-op")
 
 def main (args : List String) : IO UInt32 := do
   let stdin ← IO.getStdin
+  let ok (v : String) : Bool := v == "unchanged" || v == "fixed"
   match args with
   | ["model", v] =>
-    if v == "unchanged" || v == "fixed" then
-      Driver.forLines stdin (⟨v == "fixed", []⟩ : St) step
+    if ok v then
+      Driver.forLines stdin (⟨v == "fixed", false, []⟩ : St) step
       return 0
     else
-      IO.eprintln "usage: pdshmodel print model unchanged|fixed"; return 2
-  | _ => IO.eprintln "usage: pdshmodel print model unchanged|fixed"; return 2
+      IO.eprintln "usage: pdshmodel print model unchanged|fixed [unchanged|fixed]"; return 2
+  | ["model", v, x] =>
+    if ok v && ok x then
+      Driver.forLines stdin (⟨v == "fixed", x == "fixed", []⟩ : St) step
+      return 0
+    else
+      IO.eprintln "usage: pdshmodel print model unchanged|fixed [unchanged|fixed]"; return 2
+  | _ => IO.eprintln "usage: pdshmodel print model unchanged|fixed [unchanged|fixed]"; return 2
 
 end Driver.PrintDrv
